@@ -381,8 +381,9 @@ def gen(rng, tier, dist):
         ev += ["C%d.2.1.0" % rng.randrange(32)]
         ev += ["n"] * 33 + ["r"] * 34 + ["C%d.%d.1.0" % (j, rng.randrange(128)) for j in range(0, 34, 3)]
         out.append(mk_case(rng, ports, ev, [(0, 1, 0), (31, 1, 0), (33, 1, 0)], dist, "capacity-32"))
-    # 33 / 34 / 40 offered at once: beyond the PendingQueue (outside the property's quantifier, the Spec
-    # is not evaluated: field `tieonly`); model and code must still do the same (C20_capacity_refuted)
+    # 33 / 34 / 40 offered at once: beyond the PendingQueue (outside the property's quantifier: the Spec
+    # walk stops where the 33rd controller starts learning - it counts them itself); model and code
+    # must still do the same (C20_capacity_refuted)
     for i in range(2 if tier == "quick" else 8):
         n = 40
         k = [33, 34, 40, 36][i % 4]
@@ -392,7 +393,7 @@ def gen(rng, tier, dist):
         ev += ["C%d.2.1.0" % rng.randrange(31, k) for _ in range(3)]
         ev += ["n"] * (k + 3) + ["r"] * (k + 4) + ["C%d.%d.1.0" % (j, rng.randrange(128)) for j in range(0, k, 3)]
         ev += ["U%d.1" % rng.randrange(k), "r", "C%d.7.1.0" % rng.randrange(31, k)]
-        out.append(mk_case(rng, ports, ev, [(0, 1, 0), (31, 1, 0), (32, 1, 0), (33, 1, 0)], dist, "capacity-over", "tieonly"))
+        out.append(mk_case(rng, ports, ev, [(0, 1, 0), (31, 1, 0), (32, 1, 0), (33, 1, 0)], dist, "capacity-over"))
     # the pending ring wraps after 32 learns
     for i in range(3 if tier == "quick" else 40):
         ports = pick_ports(rng)
@@ -575,6 +576,13 @@ def spec_walk(case, impl):
                     learning.add(cid)
                     avail -= 1
                     chN.append(cid)
+                    if len(learning) > PENDING_CAP:
+                        # more controllers learning at once than the PendingQueue holds: outside the
+                        # property's quantifier (2..6 controllers) and outside the theorems' bound
+                        # (C20_capacity_refuted).  Computed here from the events of the history; the
+                        # events up to this point have been judged, the rest is compared
+                        # model-vs-implementation only.
+                        return None, {"messages": nmsg, "assignments": nassign, "over_capacity_at": k_ev}
                 elif want:
                     return ("learn: controller %d is not assigned, an address is queued, but it is not taken "
                             "at %s" % (cid, where)), {"event": k_ev, "cid": cid, "learning": False}
@@ -628,22 +636,17 @@ def spec_walk(case, impl):
         return "crash: the code crashed at event %d of %s" % (len(recs), f[2]), {}
     return None, {"messages": nmsg, "assignments": nassign}
 
-def tie_only(case):
-    f = case.split(" ")
-    return len(f) > 3 and f[3] == "tieonly"
+PENDING_CAP = 32      # MidiMapperRT::PendingQueue holds 32 controller ids
 
 def spec_check(case, impl):
     if impl in ("BADCASE", "PIPEFAIL") or impl.startswith("NOOUT"):
         return "harness: " + impl
-    if tie_only(case):      # more than 32 controllers learning at once: outside the property's quantifier
-        return None
     return spec_walk(case, impl)[0]
 
 def nontrivial(case, impl):
-    if tie_only(case):
-        return False
     fail, info = spec_walk(case, impl)
-    return fail is None and info.get("assignments", 0) >= 2 and info.get("messages", 0) >= 2
+    return (fail is None and "over_capacity_at" not in info
+            and info.get("assignments", 0) >= 2 and info.get("messages", 0) >= 2)
 
 def classify(case, impl, failure):
     """No known finding is left for C20: the class bind-crosses-use-cc (D19) was repaired in the
@@ -726,4 +729,4 @@ LEVEL_NOTE = ("Stage 4: D19 (every midi-bind released the oldest pending control
               "its value, the pending set the records imply (pending_of) and whether the model's ring holds it; canon() sets the plug-in's "
               "values and the real ring beside them, so the correspondence run compares all of it on every history.  No known-finding class "
               "is left.  The bound of 32 controllers is tight (C20_capacity_refuted, outside the property's quantifier; model and code agree "
-              "beyond it, tie-only cases).  Not modelled: float overflow / NaN / -0.0.  See notes/C20.md.")
+              "beyond it: the Spec walk counts the controllers learning at once from the events and stops judging at the 33rd).  Not modelled: float overflow / NaN / -0.0.  See notes/C20.md.")
